@@ -106,6 +106,13 @@ retry_fetch_lv:
             v_at_fetch_lv.get_vinsert_delete()) {
             goto retry_fetch_lv; // NOLINT
         }
+        if constexpr (!is_inlinable<ValueType>()) {
+            /**
+             * remove clears the slot without changing the node version, so
+             * the slot may have been emptied after the lookup: fetch again.
+             */
+            if (vp == nullptr) { goto retry_fetch_lv; } // NOLINT
+        }
         out = std::make_pair(v_body, value::get_len(vp));
         return status::OK;
     }
